@@ -61,6 +61,8 @@ type pendingEvent struct {
 	seq    uint64
 	flight *Flight
 	timer  *Node
+	real   bool
+	wake   bool
 }
 
 func (w *World) pendingEvents() []pendingEvent {
@@ -77,6 +79,12 @@ func (w *World) pendingEvents() []pendingEvent {
 		}
 		if n.trig != nil && n.trig.cur != nil && !n.trig.cur.fired {
 			evs = append(evs, pendingEvent{at: n.trig.cur.at, seq: n.trig.cur.seq, timer: n})
+		}
+		if n.wakeAt > 0 {
+			evs = append(evs, pendingEvent{at: n.wakeAt, seq: n.wakeSeq, timer: n, wake: true})
+		}
+		if n.realTrig != nil && n.realTrig.armed && !n.realTrig.seen && n.realTrig.expiry < time.Duration(1)<<58 {
+			evs = append(evs, pendingEvent{at: n.realTrig.expiry, seq: n.realTrig.arms[len(n.realTrig.arms)-1].seq, timer: n, real: true})
 		}
 	}
 	sort.Slice(evs, func(i, j int) bool {
@@ -102,6 +110,7 @@ func (w *World) fireTimer(n *Node, r *registration, label string) {
 	w.ev("%s n%d h%d v%d", label, n.idx, r.h, r.v)
 	tr := r.trigger()
 	ch, ctx := n.trig.ch, n.ctx
+	w.noteTrigger(n, r.h, r.v)
 	w.onTimerFired(n, r)
 	go func() {
 		select {
@@ -112,7 +121,18 @@ func (w *World) fireTimer(n *Node, r *registration, label string) {
 	w.quiesce()
 }
 
+// realTimerBefore: advancing the clock to t would let a real timer fire on the way.
+func (w *World) realTimerBefore(t time.Duration) bool {
+	for _, n := range w.nodes {
+		if n.alive && n.realTrig != nil && n.realTrig.armed && !n.realTrig.seen && n.realTrig.expiry <= t {
+			return true
+		}
+	}
+	return false
+}
+
 func (w *World) genesis(n *Node) {
+	w.noteUpdateState(n, 0, true)
 	lh, ctx := n.lh, n.ctx
 	go lh.UpdateState(ctx, nil, nil)
 	w.quiesce()
@@ -236,7 +256,12 @@ func (w *World) netStep() bool {
 		e = timers[0] // natural expiry: the clock jumps to the earliest timer
 	case len(timers) > 0 && w.ch.Chance("timer-early", cfg.TimerEarlyPm):
 		e = timers[w.ch.Pick("timer-which", len(timers))]
-		w.stats.Fault("timer-early")
+		if e.real || e.wake {
+			e = timers[0] // real timers and timed waits cannot fire early: the clock moves to the earliest expiry instead
+		}
+		if !e.real && !e.wake {
+			w.stats.Fault("timer-early")
+		}
 	default:
 		k := len(msgs)
 		if k > cfg.Window {
@@ -249,11 +274,14 @@ func (w *World) netStep() bool {
 		}
 	}
 	if e.timer != nil {
-		if e.at > w.now && len(msgs) == 0 {
+		if e.real || e.wake {
+			w.fireAny(&e)
+			return true
+		}
+		if e.at > w.now && len(msgs) == 0 && !w.realTimerBefore(e.at) {
 			w.advanceTo(e.at)
 		}
-		w.action("timer")
-		w.fireTimer(e.timer, e.timer.trig.cur, "timer-fire")
+		w.fireAny(&e)
 		return true
 	}
 	f := e.flight
@@ -302,7 +330,7 @@ func (w *World) netStep() bool {
 		w.action("dead-drop")
 		return true
 	}
-	if f.at > w.now {
+	if f.at > w.now && !w.realTimerBefore(f.at) {
 		w.advanceTo(f.at)
 	}
 	w.action("deliver")
@@ -390,8 +418,10 @@ func (w *World) restart(n *Node) bool {
 	w.action("restart")
 	lh, ctx := n.lh, n.ctx
 	if sb == nil {
+		w.noteUpdateState(n, 0, true)
 		go lh.UpdateState(ctx, nil, nil)
 	} else {
+		w.noteUpdateState(n, sb.block.H, true)
 		blk, proof := sb.block, sb.proof
 		go lh.UpdateState(ctx, blk, proof)
 	}
@@ -563,6 +593,7 @@ func (w *World) syncTo(n *Node, target *StoredBlock, th uint64, label string) bo
 		n.store[th] = target
 	}
 	w.preSync(n, th)
+	w.noteUpdateState(n, th, false)
 	lh, ctx := n.lh, n.ctx
 	blk, proof := target.block, target.proof
 	done := make(chan error, 1)
